@@ -29,12 +29,19 @@ AXIS_DIRS = [
 @st.composite
 def direction(draw, R=3):
     """small non-zero integer vector; the 26 lattice directions are weighted up"""
-    if draw(st.integers(0, 2)) == 0:
+    mode = draw(st.integers(0, 5))
+    if mode <= 1:
         d = draw(st.sampled_from(AXIS_DIRS))
     else:
         d = (draw(st.integers(-R, R)), draw(st.integers(-R, R)), draw(st.integers(-R, R)))
         assume(any(d))
-    return tuple(F(x) for x in d)
+    d = tuple(F(x) for x in d)
+    if mode == 5:
+        # quarter-lattice components (e.g. 3.25, -0.75): exactly representable but with inexact quotients
+        q = tuple(F(draw(st.integers(-15, 15)), 4) for _ in range(3))
+        assume(any(q))
+        d = q
+    return d
 
 
 SCALES = (F(1), F(-1), F(2), F(-2), F(3), F(1, 2), F(-1, 2), F(-3))
@@ -113,6 +120,10 @@ def offset_from_line(draw, d):
     assume(i != 0 or j != 0)
     h = draw(st.sampled_from((1, 2, 4)))
     return X.add(X.mul(F(i, h), u), X.mul(F(j, h), v))
+
+
+def is_zero_cross(u, v):
+    return X.is_zero(X.cross(u, v))
 
 
 def mk1d(kind, p, d, length=F(1)):
@@ -208,6 +219,20 @@ def related_flat(draw, a, kb, recipe):
             if kb == "H":
                 return ("H", e0, X.mul(outward * abs(k), d))
             return ("L", e0, X.mul(k, d))
+        if recipe == "cross-shared-projection":
+            # crossing carriers whose direction vectors have parallel projections on a coordinate plane (both lines lie
+            # in a plane containing a coordinate axis): an elimination on coordinates meets a dependent 2x2 block first
+            i = draw(st.integers(0, 2))
+            assume(any(d[j] != 0 for j in range(3) if j != i))
+            k = draw(st.sampled_from(SCALES))
+            e = [k * c for c in d]
+            e[i] = e[i] + draw(st.sampled_from((F(1), F(-1), F(1, 4), F(-3, 4), F(2))))
+            e = tuple(e)
+            assume(not is_zero_cross(e, d))
+            ta = draw(st.sampled_from((F(0), F(1, 4), F(1, 2), F(1))))
+            tb = draw(st.sampled_from((F(0), F(1, 4), F(1, 2), F(1))))
+            hit = X.add(p, X.mul(ta, d))
+            return mk1d(kb, X.sub(hit, X.mul(tb, e)), e)
         if recipe in ("cross", "skew", "cross-hit", "cross-end"):
             IN = (F(0), F(1, 4), F(1, 2), F(1))
             ENDS = (F(0), F(1))
@@ -304,7 +329,7 @@ def flat_recipes(ka, kb):
     if ka == "P":
         return ("on", "off", "free")
     if ka in one and kb in one:
-        r = ["collinear", "parallel-off", "cross", "cross-hit", "cross-end", "skew", "free"]
+        r = ["collinear", "parallel-off", "cross", "cross-hit", "cross-end", "cross-shared-projection", "skew", "free"]
         if ka != "L" and kb != "L":
             r.insert(1, "touch")
         return tuple(r)
